@@ -155,7 +155,9 @@ Http::One::TeChunkedParser::parseChunkExtensions(Tokenizer &callerTok)
             return; // reached the end of extensions (if any)
 
         parseOneChunkExtension(tok);
-        buf_ = tok.remaining(); // got one extension
+        // No parse checkpoint here: a retry must restart at the (strict) BWS
+        // after chunk-size; resuming after an extension would let
+        // ParseStrictBws() accept blanks that may only precede ";".
         callerTok = tok;
     } while (true);
 }
